@@ -11,7 +11,8 @@ Case = {"cfg": "graph"|"ds"|"cg"|"ro", "method": "GET"|"POST"|"POST_FORM", "fmt"
         "init": [[s,p,o,g]…], "ginit": [g…],          (endpoint content before the history; g 0 = default graph)
         "ops": [op…]}
   op = ["add", s,p,o, g, via] | ["addN", [[s,p,o,g]…]] | ["remove", s?,p?,o?, g|None, via] | ["remove_graph", g]
-     | ["graph", g] | ["update", g, [lop…], style] | ["commit"] | ["rollback"]
+     | ["graph", g] | ["dropg", g] (update("DROP GRAPH <g>")) | ["bulk", n, g, via] (n single add() calls)
+     | ["update", g, [lop…], style] | ["commit"] | ["rollback"]
      | ["triples", s?,p?,o?, g, via] | ["len", g] | ["contains", s?,p?,o?, g, via] | ["contexts", None|[s,p,o]]
      | ["query", kind, g, arg] | ["slice", s?,p?,o?, g, limit|None, offset|None]
   lop = ["I", [[s,p,o]…]] | ["D", [[s,p,o]…]] | ["W", [s?,p?,o?]]
@@ -51,7 +52,9 @@ AUDIT = "RV/C20/Audit.lean"
 DRIVER = "drv_c20"
 CASES = {"quick": 600, "thorough": 12000, "search": 4000}
 RULE = ("random histories (3-11 ops) of add / addN / pattern remove / remove_graph / Dataset.graph / update(text) / "
-        "commit / rollback (incl. repeated identical writes inside one uncommitted batch) and reads (8 pattern shapes, len, "
+        "commit / rollback (incl. repeated identical writes inside one uncommitted batch; a named graph created, the creation "
+        "undone by rollback or a caller's DROP GRAPH, and created again; one history in 200 with an uncommitted queue of "
+        ">1000 / >1024 / >4096 statements) and reads (8 pattern shapes, len, "
         "in, contexts, query, LIMIT/OFFSET slices; named-graph and default-graph reads interleaved) against a "
         "loop-back SPARQL endpoint, through Graph / Dataset / ConjunctiveGraph / read-only Dataset, method GET|POST|"
         "POST_FORM x xml|json x autocommit x dirty_reads x extra params/headers x auth x sparql11 x context_aware x "
@@ -386,8 +389,41 @@ def gen_case(rng, tier, i):
                 alt.insert(1, ["add"] + _triple(rng, objs, False) + [0, 0])
             at = rng.randint(0, len(ops))
             ops[at:at] = alt
+    # ---- a named graph created, the creation undone WITHOUT remove_graph() (rollback, or a caller's DROP GRAPH), and the
+    #      same graph asked for again: the second Dataset.graph(name) must send CREATE GRAPH again (the empty graph is part
+    #      of the endpoint's state and of graphs() / contexts())
+    if cfg == "ds" and rng.random() < 0.12 * (1.5 if tier == "thorough" else 1.0):
+        gn = rng.choice(named)
+        k = rng.random()
+        if k < 0.45:
+            autocommit = False
+            seq = [["graph", gn], ["rollback"], ["graph", gn], rng.choice([["commit"], ["contexts", None]])]
+        elif k < 0.85:
+            seq = [["graph", gn]] + ([["commit"]] if rng.random() < 0.5 else []) + [["dropg", gn], ["graph", gn]]
+            seq.append(rng.choice([["commit"], ["contexts", None]]))
+        else:
+            seq = [["graph", gn], ["remove_graph", gn], ["graph", gn], ["contexts", None]]
+        if rng.random() < 0.5:
+            seq.append(["contexts", None])
+        at = rng.randint(0, len(ops))
+        ops[at:at] = seq
     if not autocommit and rng.random() < 0.6:
         ops.append(rng.choice([["commit"], ["rollback"], ["len", wgraph()]]))
+    # ---- long transactions: an uncommitted queue of more than 1000 / 1024 / 4096 statements (no implicit flush may
+    #      happen: nothing is visible before commit(), rollback() discards all of it).  One history in 200.
+    if i % 200 == 57 and cfg in ("graph", "ds", "cg"):
+        autocommit = False
+        size = [1000 + rng.randint(1, 40), 1024 + rng.randint(1, 20), 4096 + rng.randint(1, 10)][(i // 200) % 3]
+        g = G0 if cfg in ("graph", "cg") else rng.choice([0, 90])
+        tail = rng.choice(["rollback", "rollback", "commit", "dirty"]) if size < 2000 else "rollback"
+        ops = [["add"] + _triple(rng, objs, False) + [g, 0], ["commit"], ["bulk", size, g, rng.randint(0, 1)]]
+        if tail == "rollback":
+            ops += [["rollback"], ["len", g]]
+        elif tail == "commit":
+            ops += [["commit"], ["len", g]]
+        else:
+            dirty = True
+            ops += [["len", g], ["rollback"], ["len", g]]
     case = {"cfg": cfg, "method": rng.choice(["GET", "POST", "POST_FORM"]), "fmt": rng.choice(["xml", "json"]),
             "autocommit": autocommit, "dirty": dirty, "hook": hook, "extra": extra, "init": init, "ginit": ginit,
             "ops": ops, "open": open_mode, "auth": auth, "sparql11": sparql11, "ca": ca, "norm": norm}
@@ -610,8 +646,10 @@ def op_commands(case, op):
     if k == "remove":
         g = "*" if op[4] is None else _g(C("read", op[4]))
         return [f"remove {_w(op[1])} {_w(op[2])} {_w(op[3])} {g}"]
-    if k == "remove_graph":
+    if k in ("remove_graph", "dropg"):      # a caller's update("DROP GRAPH <g>") means what remove_graph(g) means
         return [f"rgraph {_g(op[1])}"]
+    if k == "bulk":
+        return [f"add {t[0]} {t[1]} {t[2]} {_g(C('write', op[2]))}" for t in bulk_triples(op[1])]
     if k == "graph":
         return [f"cgraph {op[1]}"]
     if k == "update":
@@ -654,6 +692,15 @@ def op_commands(case, op):
         return [f"slice {_w(op[1])} {_w(op[2])} {_w(op[3])} {_g(C('read', op[4]))} "
                 f"{'-' if op[5] is None else op[5]} {'-' if op[6] is None else op[6]} {ob}"]
     return ["unknown-op"]
+
+
+BULK_OBJS = [24, 23, 21, 1, 2, 32, 38, 27, 20, 50]
+
+
+def bulk_triples(n):
+    """the n triples a `bulk` op adds one by one (160 distinct ones, repeated: every add() queues a statement)"""
+    subs, preds = SUBJ_IDS[:4], PRED_IDS
+    return [[subs[j % 4], preds[(j // 4) % 4], BULK_OBJS[(j // 16) % len(BULK_OBJS)]] for j in range(n)]
 
 
 def _model_blocks(case, out):
@@ -1052,6 +1099,11 @@ def run_impl(case):
             t.remove_graph(t.default_graph if g == 0 else GNAME[g])
         elif k == "graph":
             t.graph(GNAME[op[1]])
+        elif k == "dropg":
+            t.update("DROP GRAPH " + GNAME[op[1]].n3())
+        elif k == "bulk":
+            for tr in bulk_triples(op[1]):
+                do_write(t, ["add"] + tr + [op[2], op[3]], enc)
         elif k == "update":
             g, lops, style = op[1:]
             tgt = t if (g == 0 and cfg not in ("cg", "graph")) else view(t, g)
@@ -1480,6 +1532,9 @@ def _unkey_names(kn):
 
 def shrink(case):
     ops, init = case["ops"], case["init"]
+    for op in ops:      # a long transaction: first try it alone (every candidate that still fails costs a 1000-statement parse)
+        if op[0] == "bulk" and (len(ops) > 1 or init):
+            yield {**case, "ops": [op], "init": [], "ginit": []}
     for i in range(len(ops)):
         yield {**case, "ops": ops[:i] + ops[i + 1:]}
     for i in range(len(init)):
@@ -1502,6 +1557,10 @@ def shrink(case):
     if case["dirty"]:
         yield {**case, "dirty": False}
     for i, op in enumerate(ops):
+        if op[0] == "bulk":
+            for n in (op[1] // 2, op[1] * 3 // 4, op[1] - 100, op[1] - 10):
+                if 0 < n < op[1]:
+                    yield {**case, "ops": ops[:i] + [["bulk", n] + op[2:]] + ops[i + 1:]}
         if op[0] == "addN" and len(op[1]) > 1:
             for j in range(len(op[1])):
                 yield {**case, "ops": ops[:i] + [["addN", op[1][:j] + op[1][j + 1:]]] + ops[i + 1:]}
